@@ -73,6 +73,10 @@ structure SerThread where
   mkStack : List (Option Nat)
   /-- `(i, v)`: marker `i` has a field of format "unique-string" with value `v` -/
   mkUstr : List (Nat × Nat)
+  /-- `startTime[i]` / `endTime[i]` is a number (not null); `phase[i]` -/
+  mkStart : List Bool := []
+  mkEnd : List Bool := []
+  mkPhase : List Nat := []
 deriving Repr
 
 structure SerCounter where
@@ -172,6 +176,51 @@ def wf (s : SerProfile) : Bool :=
   && mainFirst (s.threads.map (fun t => (t.pid, t.isMain)))
   -- positional thread references exist
   && s.visible.all (· < s.threads.length) && s.selected.all (· < s.threads.length)
+
+/-! ### the identity part of the specification
+
+What the *caller* knows, with handles as positions and nothing else: for every process handle its pid
+string, for every thread handle its process handle, tid string and main flag, for every counter handle the
+process handle and the pid string it was created with, and the thread handles passed to
+`add_initial_visible_thread` / `add_initial_selected_thread`.
+`identOk v s` is evaluated by the judge on the implementation's tables with a view computed from the op
+lines alone (`C03.Spec.view`), and it is the conclusion of `C03_identity` with the view of the model state
+(`P.view`). -/
+
+structure CallerView where
+  procs : List Str
+  threads : List (Nat × Str × Bool)
+  counters : List (Nat × Str)
+  visible : List Nat
+  selected : List Nat
+deriving Repr
+
+/-- position of the first occurrence -/
+def posOf (l : List Str) (x : Str) : Option Nat :=
+  if l.idxOf x < l.length then some (l.idxOf x) else none
+
+def identOk (v : CallerView) (s : SerProfile) : Bool :=
+  let tids := s.threads.map (·.tid)
+  let pids := s.threads.map (·.pid)
+  let posT (h : Nat) : Option Nat := (v.threads[h]?).bind (fun th => posOf tids th.2.1)
+  -- every created thread is serialized, nothing else is
+  decide (s.threads.length = v.threads.length)
+  -- pid strings of different processes differ
+  && distinct v.procs
+  -- thread `h` is found under its tid string, carries its process's pid string and its main flag
+  && v.threads.all (fun th =>
+      match (posOf tids th.2.1).bind (s.threads[·]?) with
+      | none => false
+      | some st => (some st.pid == v.procs[th.1]?) && (st.isMain == th.2.2))
+  -- positional references denote the threads the caller named
+  && (s.visible.map some == v.visible.map posT) && (s.selected.map some == v.selected.map posT)
+  -- counters: pid of the process the caller named; `mainThreadIndex` is the position of the first thread
+  -- of that process (the clause is empty for a process without threads: the format needs a thread)
+  && decide (s.counters.length = v.counters.length)
+  && (v.counters.zip s.counters).all (fun (c, sc) =>
+      (v.procs[c.1]? == some c.2) && (sc.pid == c.2)
+      && (!(v.threads.any (·.1 == c.1))
+          || ((sc.mainThreadIndex == pids.idxOf c.2) && decide (pids.idxOf c.2 < s.threads.length))))
 
 /-! ### serialization -/
 
@@ -286,10 +335,10 @@ def serThread (p : P) (t : Thread) : Option SerThread :=
       saLen := nsa, saCols := [nsa, nsa, nsa, nsa], saStack := t.samples,
       na := t.allocs.map (fun st => (st.length, [st.length, st.length, st.length, st.length, st.length], st)),
       mkLen := nmk,
-      mkCols := [mk.cats.length, nmk, mk.times, mk.names.length, mk.times, mk.times],
+      mkCols := [mk.cats.length, nmk, mk.ends.length, mk.names.length, mk.phases.length, mk.starts.length],
       mkCat := mk.cats, mkName := mk.names,
       -- the data column has `len` entries: `marker_stacks[i]` is indexed for `i < len`
-      mkStack := mk.stacks, mkUstr := ustr }
+      mkStack := mk.stacks, mkUstr := ustr, mkStart := mk.starts, mkEnd := mk.ends, mkPhase := mk.phases }
   | _, _ => none
 
 def mapM' {α β : Type} (f : α → Option β) : List α → Option (List β)
@@ -314,5 +363,13 @@ def serialize (p : P) : Option SerProfile :=
              counters := counters, threads := threads }
     else none
   | _, _, _ => none
+
+/-- the caller's view of a model state (see `CallerView`) -/
+def P.view (p : P) : CallerView where
+  procs := p.processes.map (fun pr => idString pr.pid)
+  threads := p.threads.map (fun t => (t.process, idString t.tid, t.isMain))
+  counters := p.counters.map (fun c => (c.process, idString c.pid))
+  visible := p.visible
+  selected := p.selected
 
 end PT
